@@ -109,6 +109,13 @@ def h_tv(ctx, cfg):
       # then only "never ahead, never twice" is claimed
       ctx.prove(s.pulled == n + 1 if nzc else s.pulled <= n + 1, "coefficient-read-once-per-output",
                 "%s pulled %d after %d outputs" % (name, s.pulled, n + 1))
+  if nout == N and len(out) == N:
+    # the input is what ended: coefficient streams that still have data were read once per produced output, not once
+    # more for a sample that never comes (the same streams may go on serving the next chunk of input)
+    for name, s, L in srcs:
+      if L is None or L > N:
+        ctx.prove(s.pulled == N if nzc else s.pulled <= N, "coefficient-read-once-per-output",
+                  "%s pulled %d in all, %d outputs, input exhausted" % (name, s.pulled, N))
   _check_output(ctx, out, x, lambda n: _at(nacc, n), lambda n: _at(dacc, n), nout, "time-varying-difference-equation")
 
 
